@@ -1,5 +1,7 @@
+mod c12x;
 mod canon;
 mod dbwalk;
+mod domops;
 mod expect;
 mod foreign;
 mod gen_dom;
@@ -85,6 +87,9 @@ fn main() {
         "dbinfo" => dbinfo(&a),
         "c01" => rt::main(&a, gen_dom::Fmt::Binary),
         "c02" => rt::main(&a, gen_dom::Fmt::Xml),
+        "domops" => domops::main(&a),
+        "c12read" => c12x::read_main(&a),
+        "uidnow" => c12x::now_main(&a),
         "foreigngen" => foreign::gen_main(&a),
         "widenlist" => foreign::widen_list(&a),
         "readcmp" => foreign::readcmp_main(&a),
